@@ -55,7 +55,7 @@ impl DirectoryPackCreator {
         self.indexes.push(index);
     }
 
-    pub fn finalize(self) -> std::io::Result<FinalizedDirectoryPackCreator> {
+    pub fn finalize(mut self) -> std::io::Result<FinalizedDirectoryPackCreator> {
         info!("======= Finalize creation =======");
 
         info!("----- Finalize value_stores -----");
@@ -64,6 +64,10 @@ impl DirectoryPackCreator {
         }
 
         info!("----- Finalize entry_stores -----");
+        // Entries may reference entries of other stores: order all of them first.
+        for entry_store in &mut self.entry_stores {
+            entry_store.finalize_order();
+        }
         let finalized_entry_stores: Vec<Box<dyn WritableTell>> = self
             .entry_stores
             .into_iter()
